@@ -55,7 +55,9 @@ def symexec(keys, lemmas, workers=None):
     if workers == 1 or len(tasks) <= 1:
         raw = [_sym_task(t) for t in tasks]
     else:
-        with mp.get_context("fork").Pool(min(workers, len(tasks))) as pool:
+        # one fresh child per task: every task starts from the parent's state (fresh-name counter, caches), so the text of
+        # an obligation -- and with it the solver's behaviour -- does not depend on which other functions were selected
+        with mp.get_context("fork").Pool(min(workers, len(tasks)), maxtasksperchild=1) as pool:
             raw = pool.map(_sym_task, tasks, chunksize=1)
     infos = {}
     order = []
